@@ -44,7 +44,10 @@ def merge(total: dict, part: dict):
         return
     total["evaluations"] += part.get("evaluations", 0)
     total["nontrivial_hashes"].update(part.get("nontrivial_hashes", ()))
-    total["counters"].update(part.get("counters", {}))
+    pc = dict(part.get("counters", {}))
+    for k in [k for k in pc if k.startswith("max_")]:     # maxima are merged as maxima, everything else is summed
+        total["counters"][k] = max(total["counters"].get(k, 0), pc.pop(k))
+    total["counters"].update(pc)
     total["violations"].extend(part.get("violations", ()))
     for s in part.get("samples", ()):
         if len(total["samples"]) < 5:
